@@ -190,7 +190,7 @@ fn cfg() -> GenCfg {
 pub fn run(ctx: &Ctx, stats: &mut Stats) {
     let c2 = ctx.clone();
     let q = std::cell::Cell::new(0u64);
-    let n = ctx.tier.pick(112, 2000);
+    let n = ctx.tier.pick(256, 4000);
     {
         let check = |c: &Collection| check_in(&c2, c, &q);
         run_prop(ctx, stats, "archives", n, gen::collection_strategy(cfg()), &check);
